@@ -98,6 +98,12 @@ class Ctx:
             e["JAVA_TOOL_OPTIONS"] = " ".join(jopts)
         if env:
             e.update(env)
+        # The stack that overflows is the one of the MAIN thread (TLC evaluates constants, ASSUMEs and the initial states there), and
+        # the java launcher sizes that thread from its command line before the JVM reads JAVA_TOOL_OPTIONS: -Xss in JAVA_TOOL_OPTIONS
+        # only reaches threads created later.  JDK_JAVA_OPTIONS is read by the launcher itself.  (Seen as an intermittent
+        # StackOverflowError in WireFuzzGen when the machine is loaded: interpreted frames are larger than compiled ones.)
+        if "-Xss" not in e.get("JDK_JAVA_OPTIONS", ""):
+            e["JDK_JAVA_OPTIONS"] = (e.get("JDK_JAVA_OPTIONS", "") + " -Xss512m").strip()
         if "-Xss" not in e.get("JAVA_TOOL_OPTIONS", ""):
             # deep recursive operators (sequence folds over long traces) overflow the default 1 MB thread stacks now and then
             e["JAVA_TOOL_OPTIONS"] = (e.get("JAVA_TOOL_OPTIONS", "") + " -Xss256m").strip()
